@@ -367,7 +367,8 @@ def sc_observed(rng):
     b = B(rng, "observed-data")
     ver = pick_ver(rng)
     objs = b.mk(obs_objects(rng, ver, b))
-    kw = {"first_observed": TS[0], "last_observed": TS[1], "number_observed": rng.randint(1, 5), "objects": Ref(objs)}
+    kw = {"created": TS[0], "modified": TS[2], "first_observed": TS[0], "last_observed": TS[1],
+          "number_observed": rng.randint(1, 5), "objects": Ref(objs)}
     if rng.random() < 0.4:
         kw["labels"] = ["l1"]
     k = b.mk(kw)
@@ -547,7 +548,7 @@ def sc_factory(rng):
     ver = pick_ver(rng)
     dflt = {}
     if rng.random() < 0.8:
-        dflt["external_references"] = rng.choice([ext_refs(rng), ext_refs(rng)[0]])
+        dflt["external_references"] = ext_refs(rng) if rng.random() < 0.85 else ext_refs(rng)[0]
     if rng.random() < 0.6:
         dflt["object_marking_refs"] = rng.choice([[TLP["white"]], TLP["green"], [TLP["amber"], TLP["red"]]])
     if rng.random() < 0.4:
@@ -628,10 +629,19 @@ def sc_api(rng):
     kw = b.mk(share_members(b, kwt))
     custom = "x_verif" in kwt
     o = b.add(op="construct", cls=cls_name(ver, CLS[ty]), kw=kw, **({"allow_custom": True} if custom else {}))
-    full = b.mk(share_members(b, sdo_kw(rng, ver, ty, full=True)))
-    sels = b.mk(rng.choice([["name"], ["description", "name"], "name"]))
+    fullt = sdo_kw(rng, ver, ty, full=True, markings=rng.random() < 0.5)
+    fullt.setdefault("description", "d")
+    full = b.mk(share_members(b, fullt))
+    second = "pattern" if ty == "indicator" else "name"
+    sels = b.mk(rng.choice([[second], ["description", second], second, "description"]))
     mk = b.mk(rng.choice([TLP["white"], [TLP["white"], TLP["red"]]]))
     tgt = rng.choice([o, full])
+    src = kwt if tgt == o else fullt
+    if src.get("granular_markings") and rng.random() < 0.6:
+        # a marking that is really there, so that remove / clear / set succeed
+        g = src["granular_markings"][0]
+        sels = b.mk(list(g["selectors"]))
+        mk = b.mk(g["marking_ref"])
     n = rng.randint(3, 7)
     for _ in range(n):
         r = rng.randrange(20)
